@@ -14,11 +14,11 @@ HARNESSES = {
 }
 RULE = ("histories over 2 drivers, up to 4 async sockets (TCP client with raw peer, UDP, acceptor; disconnect handler "
         "destroying the socket or not; receive handler keeping buffers or not), one send pool of 4, 3 ToDos: "
-        "create / send / step / peer send-close-reset-connect / release / destroy socket (also inside its disconnect handler, "
+        "create / send / step / peer send-close-reset-connect / driver-side send failure (next send() = ECONNRESET) / release / destroy socket (also inside its disconnect handler, "
         "also with sends pending) / destroy driver before or after its sockets and ToDos / cancel-shift-drop of pending and "
         "finished ToDos / step of an empty driver; ops that would break a usage rule are refused by the harness and must be "
         "illegal in the model too. State-aware random walks (length 5..40); thorough adds every history of <= 4 (second prefix: 3) ops over a "
-        "17-letter alphabet after a fixed prefix. Each history runs in its own process under three builds. "
+        "18-letter alphabet after a fixed prefix. Each history runs in its own process under three builds. "
         "non-trivial = a socket or driver was destroyed with something still attached/pending, or a send hit an unregistered "
         "socket / dead driver, or a finished ToDo was cancelled/shifted.")
 ASSUMPTIONS = [
@@ -34,7 +34,7 @@ TRUSTED = ["ASan/UBSan/_GLIBCXX_ASSERTIONS/_GLIBCXX_SANITIZE_VECTOR as the detec
            "Linux loopback TCP/UDP semantics for the raw peers"]
 ALL_TAGS = ["send", "send.unregistered", "send.nodriver", "dsock", "dsock.pending", "ddriver.empty", "ddriver.busy",
             "step", "step.empty", "cancel", "cancel.finished", "shift", "shift.finished", "disc", "disc.selfdestroy",
-            "fut.value", "fut.broken", "skipped"]
+            "fut.value", "fut.broken", "fut.exn", "skipped"]
 EXHAUSTIVE = {"thorough": False}
 SHRINK = True
 
@@ -56,6 +56,8 @@ def walk(rng):
         ops.append("driver 1"); drivers.add(1)
     n = rng.randrange(5, 40)
     for _ in range(n):
+        if not drivers and rng.random() < 0.3:
+            break           # nothing can be created any more; a few ops on the orphans are enough
         x = rng.random()
         alive = [i for i, s in socks.items() if s["alive"]]
         if x < 0.12 and len(socks) < 4 and drivers:
@@ -64,7 +66,7 @@ def walk(rng):
             d = rng.choice(sorted(drivers))
             ondisc = 1 if (k == "tcp" and rng.random() < 0.4) else 0
             hold = 1 if (not ondisc and k != "acc" and rng.random() < 0.3) else 0
-            socks[i] = dict(kind=k, alive=True, hold=hold)
+            socks[i] = dict(kind=k, alive=True, hold=hold, drv=d)
             ops.append("sock %d %s %d %d %d 0" % (i, k, d, ondisc, hold))
         elif x < 0.30 and socks:
             i = rng.choice(sorted(socks))
@@ -75,9 +77,18 @@ def walk(rng):
             i = rng.choice(sorted(socks))
             k = socks[i]["kind"]
             ops.append(("pconn %d" if k == "acc" else "psend %d") % i)
-        elif x < 0.70 and socks:
+        elif x < 0.68 and socks:
             i = rng.choice(sorted(socks))
             ops.append(rng.choice(["pclose %d", "pclose %d", "preset %d"]) % i)
+        elif x < 0.70 and socks:
+            # a driver-side send that fails: arm the failure, usually with something queued and a step to follow
+            tcp = [i for i, s in socks.items() if s["kind"] == "tcp"] or sorted(socks)
+            i = rng.choice(tcp)
+            if rng.random() < 0.7:
+                ops.append("send %d" % i)
+            ops.append("sendfail %d" % i)
+            if rng.random() < 0.7:
+                ops.append("step %d" % socks[i]["drv"])
         elif x < 0.74 and socks:
             ops.append("release %d" % rng.choice(sorted(socks)))
         elif x < 0.82 and socks:
@@ -86,7 +97,7 @@ def walk(rng):
                 ops.append("release %d" % i)
             ops.append("dsock %d" % i)
             socks[i]["alive"] = False
-        elif x < 0.86 and drivers:
+        elif 0.82 <= x < 0.835 and drivers:
             d = rng.choice(sorted(drivers))
             ops.append("ddriver %d" % d)
             drivers.discard(d); dead_drivers.add(d)
@@ -102,7 +113,7 @@ def walk(rng):
     return ops
 
 
-ALPHABET = ["send 0", "step 0", "pclose 0", "preset 0", "psend 0", "dsock 0", "ddriver 0",
+ALPHABET = ["send 0", "sendfail 0", "step 0", "pclose 0", "preset 0", "psend 0", "dsock 0", "ddriver 0",
             "send 1", "psend 1", "dsock 1", "cancel 1", "shift 1", "droptodo 1", "pconn 2", "dsock 2", "release 1", "todo 2 0 1"]
 PREFIXES = [
     ["driver 0", "sock 0 tcp 0 0 0 0", "sock 1 udp 0 0 1 0", "sock 2 acc 0 0 0 0", "todo 1 0 1"],
@@ -112,7 +123,7 @@ PREFIXES = [
 
 def gen(rng, tier):
     cases = []
-    count = 350 if tier == "quick" else 12000
+    count = 350 if tier == "quick" else 8000
     for k in range(count):
         h = walk(rng)
         cases.append(("life", "w%d" % k, h))
